@@ -11,6 +11,8 @@ FIRRateConverter::FIRRateConverter(int interp, int decim)
 FIRRateConverter::FIRRateConverter(int interp, int decim, const arr_real& h)
   : interp_{interp}
   , decim_{decim} {
+    DSPLIB_ASSERT(interp > 0, "interpolation factor must be positive");
+    DSPLIB_ASSERT(decim > 0, "decimation factor must be positive");
     const auto th = polyphase(h, interp_, real_t(interp_), true);
     sublen_ = th[0].size();
     d_ = zeros(sublen_ - 1);
